@@ -169,8 +169,7 @@ func TestVerifC02Reads(t *testing.T) {
 				shard := rapid.SampledFrom(b.shards).Draw(rt, "shard")
 				var typed []string
 				for tk := range b.types {
-					parts := strings.SplitN(tk, "#", 3)
-					if strings.HasPrefix(tk, fmt.Sprintf("%d#", shard)) && !b.uncertainTypes[parts[0]+"#"+parts[1]] {
+					if strings.HasPrefix(tk, fmt.Sprintf("%d#", shard)) && b.confirmed[tk] {
 						typed = append(typed, tk)
 					}
 				}
@@ -192,11 +191,16 @@ func TestVerifC02Reads(t *testing.T) {
 					}
 					bt := rapid.SampledFrom(other).Draw(rt, "badType")
 					bad := vPt{M: parts[1], Tags: vDrawTags(rt), Fields: map[string]vVal{parts[2]: vDrawValue(rt, bt)}, TS: vDrawTS(rt)}
+					if rapid.Bool().Draw(rt, "withNewFieldFirst") {
+						// a brand-new field that sorts before the conflicting one: the point must still be dropped as a whole
+						bad.Fields[rapid.SampledFrom([]string{"a0", "a1", "a2"}).Draw(rt, "newField")] = vDrawValue(rt, rapid.SampledFrom(vTypes).Draw(rt, "newFieldT"))
+						cls["op:conflict-after-new-field"] = true
+					}
 					if rapid.Bool().Draw(rt, "withGoodField") {
 						// a second, well-typed field on the same point must be dropped with it
 						for _, f2 := range b.fields {
 							if f2 != parts[2] {
-								if t2, ok := b.types[vTypeKey(shard, parts[1], f2)]; ok {
+								if t2, ok := b.types[vTypeKey(shard, parts[1], f2)]; ok && b.confirmed[vTypeKey(shard, parts[1], f2)] {
 									bad.Fields[f2] = vDrawValue(rt, t2)
 								}
 								break
